@@ -299,6 +299,8 @@ class Stats:
         self.refined_unsat = 0
         self.refined_sat = 0
         self.refined_unknown = 0
+        self.retried = 0
+        self.cvc5_unsat = 0
         self.solver_s = 0.0
         self.rlimit_spent = 0
 
@@ -327,6 +329,7 @@ class Explorer:
         self.trace = []  # [(cond, taken, pushed)] for the current path
         self.prefix = []
         self.cache = {}
+        self._keep = []
         self.pending = []
         self.model = None
         self.stats = Stats()
@@ -362,6 +365,7 @@ class Explorer:
 
     def note_mul(self, t, a, b):
         i = t.get_id()
+        self._keep.append(t)
         if i in self._lemma_depth:
             return
         self._lemmas.append((i, z3.And((t == 0) == z3.Or(a == 0, b == 0),
@@ -369,6 +373,7 @@ class Explorer:
 
     def note_div(self, t, a, b):
         i = t.get_id()
+        self._keep.append(t)
         if i in self._lemma_depth:
             return
         # only meaningful where b != 0 (the proxy guards that before building the term)
@@ -389,6 +394,7 @@ class Explorer:
                     self.model = None
         self.trace.append((taken, pushed))
         self.cache[cond.get_id()] = taken
+        self._keep.append(cond)  # ids are recycled once a term is freed
 
     def _replay(self, cond):
         """Follow the recorded prefix for the k-th decision of this path."""
@@ -397,6 +403,7 @@ class Explorer:
         if k < self._reuse:  # the solver already holds this part of the path
             self.trace.append((taken, pushed))
             self.cache[cond.get_id()] = taken
+            self._keep.append(cond)  # ids are recycled once a term is freed
         else:
             self._record(cond, taken, pushed)
         return taken
@@ -480,13 +487,70 @@ class Explorer:
         if r == z3.unsat:
             self.stats.unsat += 1
             return "unsat", None
-        if r == z3.unknown and not self.uf:
-            self.stats.unknown += 1
-            return "unknown", None
-        if not self.uf:
-            self.stats.sat += 1
-            return "sat", m
-        return self._refine(z3.Not(cond))
+        if self.uf:
+            return self._refine(z3.Not(cond))
+        if r == z3.unknown:
+            r, m = self._ladder(list(self.solver.assertions()) + [z3.Not(cond)])
+            if r == z3.unsat:
+                self.stats.unsat += 1
+                self.stats.retried += 1
+                return "unsat", None
+            if r == z3.unknown:
+                self.stats.unknown += 1
+                return "unknown", None
+            self.stats.retried += 1
+        self.stats.sat += 1
+        return "sat", m
+
+    def _ladder(self, assertions):
+        """Retry an ``unknown`` query: fresh solvers with other seeds/tactics, then cvc5 (unsat only)."""
+        t = time.time()
+        try:
+            for mk in (lambda: z3.SolverFor("QF_NRA"), lambda: z3.Tactic("qfnra-nlsat").solver(),
+                       lambda: z3.Solver()):
+                for seed in (0, 7):
+                    s = mk()
+                    s.set("rlimit", self.refine_rlimit)
+                    s.set("timeout", TIMEOUT_MS)
+                    try:
+                        s.set("random_seed", seed)
+                    except z3.Z3Exception:
+                        pass
+                    s.add(*assertions)
+                    r = s.check()
+                    if r == z3.sat:
+                        return r, s.model()
+                    if r == z3.unsat:
+                        return r, None
+            try:
+                import cvc5
+                from cvc5 import Kind  # noqa: F401
+
+                s = z3.Solver()
+                s.add(*assertions)
+                smt = "(set-logic QF_NRA)\n" + s.to_smt2()
+                tm = cvc5.TermManager() if hasattr(cvc5, "TermManager") else None
+                slv = cvc5.Solver(tm) if tm is not None else cvc5.Solver()
+                slv.setOption("tlimit-per", str(TIMEOUT_MS))
+                parser = cvc5.InputParser(slv)
+                parser.setStringInput(cvc5.InputLanguage.SMT_LIB_2_6, smt, "q")
+                sm = parser.getSymbolManager()
+                res = None
+                while True:
+                    cmd = parser.nextCommand()
+                    if cmd.isNull():
+                        break
+                    out = cmd.invoke(slv, sm)
+                    if "unsat" in str(out):
+                        res = z3.unsat
+                if res == z3.unsat:
+                    self.stats.cvc5_unsat += 1
+                    return z3.unsat, None
+            except Exception:  # noqa: BLE001 - cvc5 is a best-effort extra rung
+                pass
+            return z3.unknown, None
+        finally:
+            self.stats.solver_s += time.time() - t
 
     def _refine(self, neg, extra=()):
         """UF said sat/unknown: re-pose with true * and /."""
@@ -507,25 +571,48 @@ class Explorer:
         if r == z3.sat:
             self.stats.refined_sat += 1
             return "sat", s.model()
+        r, m = self._ladder(list(s.assertions()))
+        if r == z3.unsat:
+            self.stats.refined_unsat += 1
+            self.stats.retried += 1
+            return "unsat", None
+        if r == z3.sat:
+            self.stats.refined_sat += 1
+            self.stats.retried += 1
+            return "sat", m
         self.stats.refined_unknown += 1
         return "unknown", None
 
-    def more_models(self, neg, extra, n=4):
-        """Further models of ``pc and neg and extra`` (exact arithmetic) for the replay search."""
-        out = []
+    def more_models(self, neg, hard, soft=(), budget_s=25.0):
+        """A model of ``pc and neg and hard`` (exact arithmetic); ``soft`` is a list of (term, [candidate values]):
+        a greedy pass pins as many inputs as possible to "nice" values -- used only to find a witness that the
+        real binary64 iteration reproduces, never for a verdict."""
         s = z3.Solver()
         s.set("rlimit", self.refine_rlimit)
         s.set("timeout", TIMEOUT_MS)
+        ex = exact if self.uf else (lambda t: t)
         for a in self.solver.assertions():
-            s.add(exact(a) if self.uf else a)
-        s.add(exact(neg) if self.uf else neg)
-        for e in extra:
-            s.add(exact(e) if self.uf else e)
+            s.add(ex(a))
+        s.add(ex(neg))
+        for e in hard:
+            s.add(ex(e))
         t = time.time()
-        r = s.check()
+        out = []
+        if s.check() == z3.sat:
+            m = s.model()
+            s.set("timeout", 3000)
+            for term, cands in soft:
+                if time.time() - t > budget_s:
+                    break
+                for cv in cands:
+                    s.push()
+                    s.add(term == lift(cv))
+                    if s.check() == z3.sat:
+                        m = s.model()
+                        break
+                    s.pop()
+            out.append(m)
         self.stats.solver_s += time.time() - t
-        if r == z3.sat:
-            out.append(s.model())
         return out
 
     # -- driver -----------------------------------------------------------------------------------
@@ -562,6 +649,7 @@ class Explorer:
                 self._reuse = common
                 self.trace = []
                 self.cache = {}
+                self._keep = []
                 self.model = None
                 self._lemmas = []
                 try:
